@@ -260,10 +260,11 @@ def run_schema(view, scratch, package, generated, per_class, mutants):
 		view.fail(f'c15:import-fails:{reason}', f'generated module does not import: {type(ex).__name__}: {ex}', {'op': 'import'})
 		return
 	view.case('import', len(text_a))
-	# kernel obligation for this program: wf_schema <its schema term> = true
+	# kernel obligation for this program: wf_schema_full <its schema term> = true (wf_schema and wf_keys, the premise of wf_no_unsupported)
 	result = common.coq_eval(
-		'From Symv Require Import Cats.Dialect.\n' + net.coq_import,
-		[f'(bool_to_string (wf_schema {net.coq_schema}) ++ "|" ++ wf_report {net.coq_schema})'], f'c15wf{index}', shard=1)[0]
+		'From Symv Require Import Cats.Dialect Cats.DialectKeys.\n' + net.coq_import,
+		[f'(bool_to_string (wf_schema_full {net.coq_schema}) ++ "|" ++ wf_report {net.coq_schema} ++ (if wf_keys {net.coq_schema} then "" else " wf_keys"))'],
+		f'c15wf{index}', shard=1)[0]
 	view.wf = result
 	view.case('wf-obligation', result)
 	saved = c01.coq_eval
@@ -378,7 +379,7 @@ def run(check, unrecognised):
 				programs += 1
 				if not result['wf'].startswith('true|'):
 					wf_bad.append((result['index'], result['wf']))
-		check.obligation(f'wf_schema gs_k = true for the {programs} generated programs', not wf_bad,
+		check.obligation(f'wf_schema_full gs_k = true for the {programs} generated programs', not wf_bad,
 			'; '.join(f'schema {index}: {report}\n{jobs[index][1]}' for index, report in wf_bad[:3])[:6000])
 		check.extra['generated_programs'] = programs
 		check.extra['probes'] = {name: ('fails' if name in probes_failing else 'passes') for name, _, _ in dialect.PROBES}
